@@ -916,4 +916,6 @@ def run(tier):
     from .. import lints
     lints.length_is_boolean(chk, ['src/hash/', 'src/mac/', 'src/kdf/', 'src/rand/'])
     lints.tail_copy_from_running_pointer(chk, ('src/hash/', 'src/mac/', 'src/kdf/', 'src/rand/'))
+    from .. import lints as _lints_ir
+    _lints_ir.ignored_result_regression(chk, ['src/hash/', 'src/mac/', 'src/kdf/', 'src/rand/'])
     return chk.finish()
